@@ -81,9 +81,9 @@ CASE_TIMEOUT = 40.0
 EVAL_COUNTER = "cases"
 FLOORS = {
     "quick": {"case_held": 1700, "effective": 1500, "rejected_as_required": 200, "identity_checks": 200, "form_groups_held": 750,
-              "deriv_held": 240, "nonterminal_held": 200},
+              "deriv_held": 240, "nonterminal_held": 200, "literal_sweep_held": 350},
     "thorough": {"case_held": 25000, "effective": 22000, "rejected_as_required": 3000, "identity_checks": 3000, "form_groups_held": 11000,
-                 "deriv_held": 3600, "nonterminal_held": 3000},
+                 "deriv_held": 3600, "nonterminal_held": 3000, "literal_sweep_held": 350},
 }
 COVER_FLOORS = {
     "quick": {"families_held": ["expr", "form", "deriv", "nonterminal"], "itypes_held": ["cell", "exterior_facet", "interior_facet"]},
@@ -661,6 +661,18 @@ def check_structure(ctx, family, e, out):
     return same
 
 
+def raise_site(ex):
+    """Innermost ufl function that raised, e.g. 'Erf.__new__' (names the mechanism of a raise)."""
+    tb = ex.__traceback__
+    site = None
+    while tb is not None:
+        code = tb.tb_frame.f_code
+        if "/ufl/" in code.co_filename:
+            site = getattr(code, "co_qualname", code.co_name)
+        tb = tb.tb_next
+    return (site or "unknown").replace("<locals>.", "")
+
+
 def run_replace(ctx, family, fn, e, mapping, subst, worlds, expr_for_expectation=None):
     """Call the real replace; a raise on a valid mapping is judged against the expectation."""
     try:
@@ -670,8 +682,8 @@ def run_replace(ctx, family, fn, e, mapping, subst, worlds, expr_for_expectation
         ctx.covered("replace_raised_with", type(ex).__name__ + ": " + str(ex)[:70])
         tgt = expr_for_expectation if expr_for_expectation is not None else e
         if hasattr(tgt, "ufl_shape") and worlds and expectation_defined(tgt, subst, worlds):
-            ctx.violation(f"C21/raises-on-valid-mapping/{family}/{type(ex).__name__}",
-                          f"replace raised {type(ex).__name__}: {str(ex)[:200]} although the mapping is shape compatible and the overridden input has a finite value",
+            ctx.violation(f"C21/raises-on-valid-mapping/{raise_site(ex)}/{type(ex).__name__}",
+                          f"replace raised {type(ex).__name__} in {raise_site(ex)}: {str(ex)[:200]} although the mapping is shape compatible and the overridden input has a finite value",
                           {"input": safe_str(e, 1200), "mapping": describe_mapping(mapping)})
         else:
             ctx.count("rejected_undefined")
@@ -714,7 +726,7 @@ def family_expr(ctx, i, rng):
         bad = next(x for x in vs if x.kind in ("disagree", "output-ambiguous"))
         culprit = localise(e, mapping, subst, worlds, fn) or e
         joint = joint_only(e, mapping, subst, worlds, fn)
-        ctx.violation("C21/value-differs/" + ("pairs-interact/" if joint else "") + culprit_key(culprit),
+        ctx.violation("C21/value-differs/" + ("pairs-interact" if joint else culprit_key(culprit)),
                       f"replace output differs from the input under the field override ({bad.kind}, rel. err {bad.err}, {bad.why}); "
                       + ("every single pair alone is handled correctly, only the joint mapping is not; " if joint else "")
                       + f"smallest sub-expression: {safe_str(culprit, 300)}",
@@ -809,7 +821,7 @@ def family_form(ctx, i, rng):
                     fn(itg.integrand(), mapping)
                 except Exception:
                     continue
-                ctx.violation(f"C21/raises-on-valid-mapping/form/{type(ex).__name__}", f"replace(form) raised {type(ex).__name__}: {str(ex)[:200]} but accepts each integrand",
+                ctx.violation(f"C21/raises-on-valid-mapping/form-only/{raise_site(ex)}/{type(ex).__name__}", f"replace(form) raised {type(ex).__name__}: {str(ex)[:200]} but accepts each integrand",
                               {"form": safe_str(form, 1200), "mapping": describe_mapping(mapping)})
                 return
         ctx.count("rejected_undefined")
@@ -845,7 +857,7 @@ def family_form(ctx, i, rng):
                     break
             ctx.count("case_violated")
             joint = culprit is not None and any(joint_only(x, mapping, subst, worlds, fn) for _, x in ins)
-            ctx.violation("C21/value-differs/" + ("pairs-interact/" if joint else "") + culprit_key(culprit) if culprit is not None else "C21/form/value-differs/form-level",
+            ctx.violation("C21/value-differs/" + ("pairs-interact" if joint else culprit_key(culprit)) if culprit is not None else "C21/form/value-differs/form-level",
                           f"replace(form) changed group {gk}: {bad.kind}, rel. err {bad.err}, {bad.why}",
                           {"form": safe_str(form, 1500), "output": safe_str(out, 1500), "mapping": describe_mapping(mapping), "group": list(gk),
                            "culprit": safe_str(culprit, 500) if culprit is not None else None, "entry": fname})
@@ -1008,7 +1020,7 @@ def family_identity(ctx, i, rng):
         out = fn(target, mapping)
     except Exception as ex:
         ctx.count("replace_raised")
-        ctx.violation(f"C21/identity/raises/{type(ex).__name__}", f"replace with a mapping none of whose keys occurs raised {type(ex).__name__}: {str(ex)[:200]}",
+        ctx.violation(f"C21/identity/raises/{raise_site(ex)}/{type(ex).__name__}", f"replace with a mapping none of whose keys occurs raised {type(ex).__name__}: {str(ex)[:200]}",
                       {"input": safe_str(target, 1000), "mapping": describe_mapping(mapping)})
         return
     ctx.count("identity_checks")
@@ -1134,7 +1146,7 @@ def family_deriv(ctx, i, rng):
             ws = make_worlds(ctx, rng, cell, gdim, itype, cplx)
             ok = ok or bool(ws and expectation_defined(e2, subst, ws))
         if ok:
-            ctx.violation(f"C21/raises-on-valid-mapping/deriv/{type(ex).__name__}", f"replace on a derivative() result raised {type(ex).__name__}: {str(ex)[:200]}",
+            ctx.violation(f"C21/raises-on-valid-mapping/{raise_site(ex)}/{type(ex).__name__}", f"replace on a derivative() result raised {type(ex).__name__}: {str(ex)[:200]}",
                           {"input": safe_str(dF, 1200), "mapping": describe_mapping(mapping)})
         else:
             ctx.count("rejected_undefined")
@@ -1183,6 +1195,7 @@ def family_deriv(ctx, i, rng):
             v2 = oracle.decide(cmp(ins_expanded))
             if v2 == "held":
                 ctx.count("deriv_expand_derivatives_suspect")
+                ctx.notes.append(f"native S and expand_derivatives disagree (not judged here): case {i}, input {safe_str(dF, 300)}")
                 ctx.covered("expand_derivatives_suspect", skeleton(ins_native[0], 2))
                 ctx.count("case_skipped")
                 return
@@ -1194,7 +1207,8 @@ def family_deriv(ctx, i, rng):
             culprit = localise(x, mapping, subst, worlds, fn)
             if culprit is not None:
                 break
-        ctx.violation(f"C21/value-differs/{culprit_key(culprit)}" if culprit is not None else f"C21/deriv/value-differs/{how}",
+        joint = culprit is not None and any(joint_only(x, mapping, subst, worlds, fn) for x in ins_expanded)
+        ctx.violation("C21/value-differs/" + ("pairs-interact" if joint else culprit_key(culprit)) if culprit is not None else f"C21/deriv/value-differs/{how}",
                       f"replace on a derivative() result differs from the {how} expectation ({bad.kind}, rel. err {bad.err}, {bad.why})",
                       {"input": safe_str(dF, 1500), "output": safe_str(out, 1500), "mapping": describe_mapping(mapping), "mode": mode,
                        "culprit": safe_str(culprit, 500) if culprit is not None else None, "entry": fname})
@@ -1307,7 +1321,7 @@ def family_nonterminal(ctx, i, rng):
         ctx.count("replace_raised")
         ctx.covered("replace_raised_with", type(ex).__name__ + ": " + str(ex)[:70])
         if expectation_defined(e_p, subst, worlds):
-            ctx.violation(f"C21/raises-on-valid-mapping/nonterminal/{type(ex).__name__}", f"replace with a non-terminal key raised {type(ex).__name__}: {str(ex)[:200]}",
+            ctx.violation(f"C21/raises-on-valid-mapping/{raise_site(ex)}/{type(ex).__name__}", f"replace with a non-terminal key raised {type(ex).__name__}: {str(ex)[:200]}",
                           {"input": safe_str(e_K, 1200), "mapping": describe_mapping(mapping)})
         else:
             ctx.count("rejected_undefined")
@@ -1335,6 +1349,64 @@ def family_nonterminal(ctx, i, rng):
             ctx.sample({"family": "nonterminal", "key": safe_str(K, 100), "image": safe_str(Gexpr, 150), "style": style, "input": safe_str(e_K, 220)})
     else:
         ctx.count("nonterminal_undecided")
+
+
+def literal_sweep(ctx):
+    """Deterministic part: every scalar operator applied to a coefficient, the coefficient replaced by literals (int, float, zero,
+    complex): the re-constructed operator folds constants, and the folded value must be the operator's value at the literal."""
+    import random
+
+    for cplx in (False, True):
+        rng = random.Random(f"C21/literal-sweep/{cplx}")
+        U = Universe(rng, "triangle", 2, "cell", cplx)
+        f, g = U.coef("P2", 0), U.coef("P2", 1)
+        v = ufl.as_vector([f, g])
+        both = {
+            "sin": ufl.sin(f), "cos": ufl.cos(f), "exp": ufl.exp(f), "tan": ufl.tan(f), "sinh": ufl.sinh(f), "cosh": ufl.cosh(f),
+            "tanh": ufl.tanh(f), "atan": ufl.atan(f), "erf": ufl.erf(f), "abs": abs(f), "conj": ufl.conj(f), "real": ufl.real(f),
+            "imag": ufl.imag(f), "pow2": f**2, "pow3": f**3, "exp2": 2**f, "product": f * g, "sum": f + g, "div-num": f / (3 + g * g),
+            "sqrt": ufl.sqrt(3 + f), "ln": ufl.ln(3 + f), "dx": f.dx(0) + g, "grad": ufl.grad(f)[1] + g, "list": v[0] * v[1],
+            "inner": ufl.inner(v, ufl.as_vector([g, f])), "dot": ufl.dot(v, v), "outer": ufl.outer(v, v)[0, 1], "neg": -f,
+            "variable": ufl.diff(ufl.variable(f) ** 2, ufl.variable(f)) + ufl.variable(f),
+        }
+        real_only = {
+            "sign": ufl.sign(f), "max": ufl.max_value(f, g), "min": ufl.min_value(f, g), "conditional": ufl.conditional(ufl.lt(f, 0.3), f, g),
+            "div-den": g / (3 + f * f), "asin": ufl.asin(0.25 * ufl.tanh(f)), "acos": ufl.acos(0.25 * ufl.tanh(f)),
+            "atan2": ufl.atan2(f, 3 + g * g), "bessel_J": ufl.bessel_J(1, 3 + f * f), "bessel_Y": ufl.bessel_Y(0, 3 + f * f),
+            "bessel_I": ufl.bessel_I(1, 3 + f * f), "bessel_K": ufl.bessel_K(0, 3 + f * f),
+        }
+        exprs = dict(both)
+        lits = [2, 0.5, -0.25, 0, 0.0, 1]
+        if cplx:
+            lits += [2 - 1j, 0.5 + 0.5j, 1j]
+        else:
+            exprs.update(real_only)
+        worlds = [World(rng, "triangle", 2, "cell", cplx) for _ in range(2)]
+        for name, e in exprs.items():
+            for lit in lits:
+                ctx.count("literal_sweep")
+                mapping = {f: lit}
+                subst = {f: ("expr", ufl.as_ufl(lit))}
+                ok, out = run_replace(ctx, "literal", ufl.replace, e, mapping, subst, worlds)
+                if not ok:
+                    continue
+                vs = compare_values(e, out, subst, worlds)
+                vd = summarise(ctx, vs)
+                if vd == "violated":
+                    ctx.violation(f"C21/value-differs/literal-image/{type(e).__name__}",
+                                  f"replace({safe_str(e, 80)}, {{f: {lit!r}}}) = {safe_str(out, 80)} differs from the operator's value at the literal",
+                                  {"input": safe_str(e, 300), "output": safe_str(out, 300), "literal": repr(lit), "complex_mode": cplx})
+                elif vd == "held":
+                    ctx.count("literal_sweep_held")
+                    ctx.covered("literal_sweep_ops_held", name)
+                else:
+                    ctx.count("literal_sweep_undecided")
+                    ctx.covered("literal_sweep_undecided", f"{name}@{lit!r}")
+
+
+def once(ctx):
+    if ctx.sub == 0:
+        literal_sweep(ctx)
 
 
 DISPATCH = {"expr": family_expr, "form": family_form, "shape": family_shape, "identity": family_identity, "deriv": family_deriv, "nonterminal": family_nonterminal}
